@@ -107,70 +107,11 @@ def describe(row):
 #   scope 'all': iff on every id of ietfNames (key-exchange dispatch lists: a suite whose key
 #                exchange the library does not implement must not be dispatched at all)
 
-def _c(cipher, bits=None, mode=None):
-    return lambda x: is_suite(x) and x.cipher == cipher and (bits is None or x.key_bits == bits) and \
-        (mode is None or x.mode == mode)
+from specs.suites import LISTS, SSL2_LISTS, OFFERED_BASES, WRAPPERS, CERT_ALGS, cert_allows   # noqa: shared with the concrete check
 
 
 def _kx(*names):
     return lambda x: iana.kx_name(x) in names
-
-
-LISTS = {
-    # bulk cipher: _getCipherSettings (key/IV length, factory), canonicalCipherName, _filterSuites(cipherNames)
-    'aes128Suites': (_c('AES', 128, 'CBC'), 'neg', 'AES-128-CBC'),
-    'aes256Suites': (_c('AES', 256, 'CBC'), 'neg', 'AES-256-CBC'),
-    'tripleDESSuites': (_c('3DES'), 'neg', '3DES-EDE-CBC'),
-    'rc4Suites': (_c('RC4'), 'neg', 'RC4-128'),
-    'nullSuites': (_c('NULL'), 'neg', 'no encryption'),
-    'aes128GcmSuites': (_c('AES', 128, 'GCM'), 'neg', 'AES-128-GCM'),
-    'aes256GcmSuites': (_c('AES', 256, 'GCM'), 'neg', 'AES-256-GCM'),
-    'aes128CcmSuites': (_c('AES', 128, 'CCM'), 'neg', 'AES-128-CCM, 16-byte tag'),
-    'aes128Ccm_8Suites': (_c('AES', 128, 'CCM_8'), 'neg', 'AES-128-CCM, 8-byte tag'),
-    'aes256CcmSuites': (_c('AES', 256, 'CCM'), 'neg', 'AES-256-CCM, 16-byte tag'),
-    'aes256Ccm_8Suites': (_c('AES', 256, 'CCM_8'), 'neg', 'AES-256-CCM, 8-byte tag'),
-    'chacha20Suites': (lambda x: _c('CHACHA20')(x) and x.registered, 'neg', 'ChaCha20-Poly1305 (RFC 7905 / 8446 nonce)'),
-    'chacha20draft00Suites': (lambda x: _c('CHACHA20')(x) and not x.registered, 'neg',
-                              'ChaCha20-Poly1305, draft-00 code points'),
-    # record protection construction: EtM negotiation (tlsconnection: not for stream / AEAD), _getMacSettings
-    'streamSuites': (lambda x: is_suite(x) and x.ctype == 'stream', 'neg', 'stream construction (RC4, NULL)'),
-    'aeadSuites': (lambda x: is_suite(x) and x.ctype == 'aead', 'neg', 'AEAD: no HMAC, macLength 0'),
-    # MAC: _getMacSettings (MAC key length, digest), canonicalMacName, _filterSuites(macNames)
-    'shaSuites': (lambda x: is_suite(x) and x.mac == 'SHA', 'neg', 'HMAC-SHA1'),
-    'sha256Suites': (lambda x: is_suite(x) and x.mac == 'SHA256', 'neg', 'HMAC-SHA256'),
-    'sha384Suites': (lambda x: is_suite(x) and x.mac == 'SHA384', 'neg', 'HMAC-SHA384'),
-    'md5Suites': (lambda x: is_suite(x) and x.mac == 'MD5', 'neg', 'HMAC-MD5'),
-    # PRF / HKDF hash: calc_key, _getPRFParams, calcTLS1_3PendingState, filter_for_prfs
-    'sha384PrfSuites': (lambda x: is_suite(x) and x.prf == 'SHA384', 'neg', 'P_SHA384 / HKDF-SHA384'),
-    'sha256PrfSuites': (lambda x: is_suite(x) and x.prf == 'SHA256' and iana.min_version(x) >= iana.TLS12, 'neg',
-                        'P_SHA256 / HKDF-SHA256, among the suites that exist only in TLS 1.2+ (used for PSK hash '
-                        'compatibility in filter_for_prfs)'),
-    # versions: filterForVersion
-    'ssl3Suites': (lambda x: is_suite(x) and iana.SSL3 in x.versions, 'neg', 'defined from SSL 3.0 on (up to TLS 1.2)'),
-    'tls12Suites': (lambda x: is_suite(x) and x.versions == (iana.TLS12,), 'neg', 'defined in TLS 1.2 only'),
-    'tls13Suites': (lambda x: x.kind == 'tls13', 'neg', 'defined in TLS 1.3 only'),
-    # key exchange / authentication dispatch (tlsconnection, messages, keyexchange)
-    'certSuites': (_kx('rsa'), 'all', 'RSA key transport'),
-    'dheCertSuites': (_kx('dhe_rsa'), 'all', 'DHE signed with RSA'),
-    'ecdheCertSuites': (_kx('ecdhe_rsa'), 'all', 'ECDHE signed with RSA'),
-    'ecdheEcdsaSuites': (_kx('ecdhe_ecdsa'), 'all', 'ECDHE signed with ECDSA'),
-    'dheDsaSuites': (_kx('dhe_dsa'), 'all', 'DHE signed with DSA'),
-    'srpSuites': (_kx('srp_sha'), 'all', 'SRP without certificate'),
-    'srpCertSuites': (_kx('srp_sha_rsa'), 'all', 'SRP signed with RSA'),
-    'srpDsaSuites': (lambda x: x.kx == 'SRP' and x.auth == 'DSS', 'all', 'SRP signed with DSS (not implemented)'),
-    'srpAllSuites': (lambda x: x.kx == 'SRP' and iana.negotiable(x), 'all', 'SRP key exchange (implemented ones)'),
-    'anonSuites': (_kx('dh_anon'), 'all', 'anonymous DHE'),
-    'ecdhAnonSuites': (_kx('ecdh_anon'), 'all', 'anonymous ECDHE'),
-    'certAllSuites': (lambda x: x.kind == 'tls' and x.auth == 'RSA' and iana.negotiable(x), 'all',
-                      'server authenticates with an RSA certificate'),
-    'dhAllSuites': (lambda x: x.kind == 'tls' and x.kx == 'DHE' and iana.negotiable(x), 'all',
-                    'ephemeral finite-field DH key exchange'),
-    'ecdhAllSuites': (lambda x: x.kind == 'tls' and x.kx == 'ECDHE' and iana.negotiable(x), 'all',
-                      'ephemeral ECDH key exchange'),
-}
-# SSLv2 code points are not IANA TLS suites and are never negotiated by the TLS handshake code
-SSL2_LISTS = ('ssl2rc4', 'ssl2rc2', 'ssl2idea', 'ssl2des', 'ssl2_3des', 'ssl2export', 'ssl2_128Key', 'ssl2_64Key',
-              'ssl2_192Key')
 
 
 def member(lst, s):
@@ -179,7 +120,7 @@ def member(lst, s):
 
 
 def _list_facts(name):
-    pred, scope, _ = LISTS[name]
+    pred, scope = LISTS[name][0], LISTS[name][1]
 
     def facts(task):
         s = z3.Int('s')
@@ -208,8 +149,7 @@ def _covered_facts(task):
     # the negotiable suites (by name) are exactly what the get*Suites wrappers can ever return
     s = z3.Int('s')
     offered = []
-    for base in ('srpSuites', 'srpCertSuites', 'tls13Suites', 'ecdheEcdsaSuites', 'ecdheCertSuites', 'dheCertSuites',
-                 'certSuites', 'dheDsaSuites', 'ecdhAnonSuites', 'anonSuites'):
+    for base in OFFERED_BASES:
         offered += list(getattr(CS, base))
     yield ('negotiable-by-name==union-of-offered-base-lists', [dom(s)], member(offered, s) == NEG(s), [s])
 
@@ -247,7 +187,17 @@ def _suite_req(ns):
     return VBool(z3.And(dom(ns.cipherSuite), SUITE(ns.cipherSuite)))
 
 
-contract(R + '_getCipherSettings', params={'cipherSuite': T.int()}, requires=_suite_req, raises={},
+def table_contract(qual, **kw):
+    """Contracts whose postcondition inspects the concrete Python object returned on each path
+    (a factory, a name): meaningful only when the real body is executed, so they are never
+    applied at call sites -- callers inline the real code."""
+    c = contract(qual, **kw)
+    c.variant = 'table'
+    return c
+
+
+REG.inline_ok.add(R + '_getCipherSettings')
+table_contract(R + '_getCipherSettings', params={'cipherSuite': T.int()}, requires=_suite_req, raises={},
          ensures=lambda ns: (lambda s, r: S.And(
              r[0] == Vf(lambda x: x.key_len, s),
              # the key-block IV length of SSL3..TLS1.2; calcTLS1_3PendingState overrides it with 12
@@ -257,7 +207,7 @@ contract(R + '_getCipherSettings', params={'cipherSuite': T.int()}, requires=_su
          doc='for every TLS suite id: key length, key-block IV length and cipher factory are those of the IANA name; '
              'no suite reaches raise AssertionError')
 
-contract(R + '_getMacSettings', params={'cipherSuite': T.int()},
+table_contract(R + '_getMacSettings', params={'cipherSuite': T.int()},
          # call sites pass the negotiated suite (static-DH / SRP_DSS names are classified only partially)
          requires=lambda ns: VBool(z3.And(dom(ns.cipherSuite), NEG(ns.cipherSuite))), raises={},
          ensures=lambda ns: (lambda s, r: S.And(
@@ -273,7 +223,7 @@ def _one_of_versions(v, versions):
     return S.Or(*[v == x for x in versions])
 
 
-contract(R + '_getHMACMethod', params={'version': _VER},
+table_contract(R + '_getHMACMethod', params={'version': _VER},
          requires=lambda ns: _one_of_versions(ns.version, VERSIONS[:4]), raises={},
          ensures=lambda ns: VBool(z3.BoolVal(isinstance(ns.result, VPy))) &
          S.iff(ns.version == (3, 0), VBool(z3.BoolVal(isinstance(ns.result, VPy) and ns.result.obj is RL.createMAC_SSL))) &
@@ -284,12 +234,12 @@ contract(R + '_getHMACMethod', params={'version': _VER},
 # ---------------------------------------------------------------------------
 # accessors
 
-contract(K + 'canonicalCipherName', params={'ciphersuite': T.int()},
+table_contract(K + 'canonicalCipherName', params={'ciphersuite': T.int()},
          requires=lambda ns: VBool(dom(ns.ciphersuite)), raises={},
          ensures=lambda ns: VBool(P(lambda x: iana.cipher_name(x) == _str_of(ns.result))(ns.ciphersuite)),
          prop=P20, doc='Session.getCipherName: the settings word for the bulk cipher of the IANA name (None for SCSVs / SSLv2)')
 
-contract(K + 'canonicalMacName', params={'ciphersuite': T.int()},
+table_contract(K + 'canonicalMacName', params={'ciphersuite': T.int()},
          requires=lambda ns: VBool(dom(ns.ciphersuite)), raises={},
          ensures=lambda ns: VBool(z3.Or(
              P(lambda x: iana.hmac_name(x) == _str_of(ns.result))(ns.ciphersuite),
@@ -301,7 +251,7 @@ contract(K + 'canonicalMacName', params={'ciphersuite': T.int()},
 # ---------------------------------------------------------------------------
 # PRF choice
 
-contract('tlslite/tlsconnection.py:TLSConnection._getPRFParams', params={'cipher_suite': T.int()},
+table_contract('tlslite/tlsconnection.py:TLSConnection._getPRFParams', params={'cipher_suite': T.int()},
          requires=lambda ns: VBool(z3.And(dom(ns.cipher_suite), SUITE(ns.cipher_suite))), raises={},
          ensures=lambda ns: (lambda s, r: S.And(
              P(lambda x: is_suite(x) and iana.prf_name(x) == _str_of(r[0]))(s),
@@ -419,6 +369,104 @@ def _calc_key_contract(label):
 
 for _l in (b'master secret', b'key expansion', b'extended master secret', b'client finished', b'server finished'):
     _calc_key_contract(_l)
+
+
+# ---------------------------------------------------------------------------
+# TLS 1.3 record keys: HKDF hash, key length, IV length 12 and cipher of the IANA name
+
+HKDF_LABEL = 'tlslite/utils/cryptomath.py:HKDF_expand_label'
+F = 'tlslite/utils/cipherfactory.py:'
+
+
+def _hkdf_external(ex, args, kwargs, st, fr, node):
+    secret, label, hash_value, length, algorithm = args
+    r = T.bytes().make('hkdf_out', st)
+    st.assume(smt.slen(r.t) == length.t)
+    st.events.append((HKDF_LABEL, args, r))
+    return [Outcome('normal', st, r)]
+
+
+def _factory_external(fname):
+    def h(ex, args, kwargs, st, fr, node):
+        r = VOpaque(z3.Const(fresh_name('cipher_' + fname), smt.Val))
+        st.events.append((F + fname, args, r))
+        return [Outcome('normal', st, r)]
+    return h
+
+
+REG.external.setdefault(HKDF_LABEL, _hkdf_external)
+for _f in ('createAESGCM', 'createAESCCM', 'createAESCCM_8', 'createCHACHA20'):
+    REG.external.setdefault(F + _f, _factory_external(_f))
+
+
+def _bytes_of(v):
+    """concrete content of a literal bytes value built by the executor, else None"""
+    if not isinstance(v, VSeq):
+        return None
+    n = z3.simplify(smt.slen(v.t))
+    out = []
+    t = v.t
+    # literals are concatenations of singletons
+    def walk(t):
+        if t.decl().name() == 's_concat':
+            walk(t.arg(0))
+            walk(t.arg(1))
+        elif t.decl().name() == 's_single' and z3.is_int_value(z3.simplify(t.arg(0))):
+            out.append(z3.simplify(t.arg(0)).as_long())
+        elif t.eq(smt.s_empty):
+            pass
+        else:
+            out.append(None)
+    walk(t)
+    return None if None in out else bytes(out)
+
+
+def _tls13_keys_ensures(secrets, with_update):
+    """secrets: names of the traffic-secret parameters in the order they are expanded"""
+    def ens(ns):
+        s = ns.cipherSuite
+        hk = [e for e in ns.events if e[0] == HKDF_LABEL]
+        fc = [e for e in ns.events if isinstance(e[0], str) and e[0].startswith(F)]
+        goals = []
+        shape = True
+        # every expansion uses the HKDF hash of the name
+        for (_, args, out) in hk:
+            alg = _str_of(args[4])
+            goals.append(P(lambda x, alg=alg: is_suite(x) and iana.prf_name(x) == alg)(s))
+            lab = _bytes_of(args[1])
+            if lab == b'key':
+                goals.append(args[3].t == Vf(lambda x: x.key_len, s))
+            elif lab == b'iv':
+                goals.append(args[3].t == 12)                      # RFC 8446 5.3
+            elif lab == b'traffic upd' and with_update:
+                goals.append(args[3].t == Vf(lambda x: x.prf_len, s))
+            else:
+                shape = False
+        keys = [e for e in hk if _bytes_of(e[1][1]) == b'key']
+        shape = shape and len(fc) == len(keys) == len(secrets) and len(hk) == (3 if with_update else 2) * len(secrets)
+        for (fname, args, out), key_ev in zip(fc, keys):
+            goals.append(P(lambda x, fname=fname: is_suite(x) and iana.factory_name(x) == fname[len(F):])(s))
+            shape = shape and args[0].t.eq(key_ev[2].t)            # the cipher is keyed with the expanded key
+        return VBool(z3.And(goals + [z3.BoolVal(bool(shape))]))
+    return ens
+
+
+def _tls13_req(ns):
+    return VBool(z3.And(dom(ns.cipherSuite), TLS13(ns.cipherSuite)))
+
+
+table_contract(R + 'calcTLS1_3PendingState',
+               params={'self': T.obj(RL.RecordLayer, client=T.bool()), 'cipherSuite': T.int(),
+                       'cl_traffic_secret': T.bytes(), 'sr_traffic_secret': T.bytes(), 'implementations': T.opaque()},
+               requires=_tls13_req, raises={}, ensures=_tls13_keys_ensures(('cl', 'sr'), False), prop=P20,
+               doc='both directions: key = HKDF-Expand-Label(secret, "key", "", key length of the name) and '
+                   'iv = HKDF-Expand-Label(secret, "iv", "", 12) with the HKDF hash of the name; the cipher object is built '
+                   'by the factory of the name from that key')
+table_contract(R + '_calcTLS1_3KeyUpdate',
+               params={'self': T.obj(RL.RecordLayer), 'cipherSuite': T.int(), 'app_secret': T.bytes()},
+               requires=_tls13_req, raises={}, ensures=_tls13_keys_ensures(('app',), True), prop=P20,
+               doc='key update: next secret of hash length, key and 12-byte iv with the HKDF hash, key length and factory '
+                   'of the name')
 
 
 # ---------------------------------------------------------------------------
@@ -574,22 +622,6 @@ REG.inline_ok.add(K + '_filterSuites')
 
 
 # --- get*Suites wrappers: the real class list is filtered
-WRAPPERS = {
-    'getTLS13Suites': (lambda x: x.kind == 'tls13', 'tls13Suites'),
-    'getSrpSuites': (_kx('srp_sha'), 'srpSuites'),
-    'getSrpCertSuites': (_kx('srp_sha_rsa'), 'srpCertSuites'),
-    'getSrpDsaSuites': (lambda x: x.kx == 'SRP' and x.auth == 'DSS', 'srpDsaSuites'),
-    'getSrpAllSuites': (lambda x: x.kx == 'SRP' and iana.negotiable(x), 'srpAllSuites'),
-    'getCertSuites': (_kx('rsa'), 'certSuites'),
-    'getDheCertSuites': (_kx('dhe_rsa'), 'dheCertSuites'),
-    'getEcdheCertSuites': (_kx('ecdhe_rsa'), 'ecdheCertSuites'),
-    'getEcdsaSuites': (_kx('ecdhe_ecdsa'), 'ecdheEcdsaSuites'),
-    'getDheDsaSuites': (_kx('dhe_dsa'), 'dheDsaSuites'),
-    'getAnonSuites': (_kx('dh_anon'), 'anonSuites'),
-    'getEcdhAnonSuites': (_kx('ecdh_anon'), 'ecdhAnonSuites'),
-}
-
-
 def _wrapper_props(pred, listname):
     def props(ns):
         v = _fs_version(ns)
@@ -628,23 +660,7 @@ for _w, (_pred, _ln) in sorted(WRAPPERS.items()):
 
 # --- filter_for_certificate
 def _ffc_allowed(alg):
-    def ok(x):
-        if x.kind == 'tls13':
-            return True                       # the certificate type is negotiated separately in TLS 1.3
-        if not iana.negotiable(x):
-            return False
-        if alg is None:
-            return x.auth in ('anon', 'SRP')  # nothing to authenticate with
-        if alg == 'rsa':
-            return x.auth == 'RSA'
-        if alg == 'rsa-pss':
-            return x.auth == 'RSA' and x.kx != 'RSA'     # an RSA-PSS key signs but cannot decrypt (RFC 8446 4.2.3 / RFC 4055)
-        if alg in ('ecdsa', 'Ed25519', 'Ed448'):
-            return x.auth == 'ECDSA'          # RFC 8422 5.10: EdDSA certificates with the ECDHE_ECDSA suites
-        if alg == 'dsa':
-            return x.auth == 'DSS'
-        return False
-    return P(ok)
+    return P(lambda x: cert_allows(alg, x))
 
 
 def _ffc_contract(alg):
@@ -668,7 +684,7 @@ def _ffc_contract(alg):
                'certificate key type can provide; TLS 1.3 suites always')
 
 
-for _a in (None, 'rsa', 'rsa-pss', 'ecdsa', 'Ed25519', 'Ed448', 'dsa', 'mldsa44'):
+for _a in CERT_ALGS:
     _ffc_contract(_a)
 
 
@@ -692,7 +708,6 @@ _named(K + 'filter_for_prfs', 'filter_for_prfs', _ffp_props, prop_names=['sound'
 # ---------------------------------------------------------------------------
 # bounded / concrete stand-in and counterexample reporter
 for _name, _fn in (('lists', None),
-                   ('sha384Suites', K + 'sha384Suites'),
                    ('canonicalMacName', K + 'canonicalMacName'),
                    ('canonicalCipherName', K + 'canonicalCipherName'),
                    ('_getCipherSettings', R + '_getCipherSettings'),
@@ -703,9 +718,10 @@ for _name, _fn in (('lists', None),
                    ('_filterSuites', K + '_filterSuites'),
                    ('filter_for_certificate', K + 'filter_for_certificate'),
                    ('filter_for_prfs', K + 'filter_for_prfs'),
-                   ('factories', None)) + tuple((w, K + w) for w in sorted(WRAPPERS)):
-    for _p in (P20 if _name in ('lists', 'sha384Suites', 'canonicalMacName', 'canonicalCipherName', '_getCipherSettings',
-                                '_getMacSettings', 'prf', 'calc_key', 'factories') else P203):
+                   ('factories', None)) + tuple((w, K + w) for w in sorted(WRAPPERS)) + \
+        tuple(('list:' + l, K + l) for l in sorted(LISTS)):
+    for _p in (P20 if _name in ('lists', 'canonicalMacName', 'canonicalCipherName', '_getCipherSettings',
+                                '_getMacSettings', 'prf', 'calc_key', 'factories') or _name.startswith('list:') else P203):
         REG.xchecks.append({'prop': _p, 'module': 'specs.suites', 'name': _name, 'function': _fn})
 
 for _p in P203:
@@ -732,9 +748,6 @@ REG.note('C20', 'not_built', 'key-exchange dispatch chains in _handshakeClientAs
                              '_clientKeyExchange / ServerKeyExchange.parse (statement contracts on the if/elif chains); '
                              'covered only through the O-lists facts on srpAllSuites, dhAllSuites, ecdhAllSuites, '
                              'certAllSuites, certSuites, ecdheEcdsaSuites, dheDsaSuites that those chains test')
-REG.note('C20', 'not_built', 'calcTLS1_3PendingState / _calcTLS1_3KeyUpdate: the PRF choice there is the same '
-                             '`in sha384PrfSuites` test proved for _getPRFParams, and iv_length = 12 is a literal; '
-                             'no separate contract')
 REG.note('C20', 'not_built', 'that the cipherfactory constructors build the cipher their name says (tag length 8 for '
                              'createAESCCM_8, ...) is checked concretely only (cross-check "factories"), contracts on '
                              'the cipher classes belong to C09')
